@@ -1,5 +1,6 @@
 import Slu.Model.MyBlas2
 import SluProofs.Lemmas.Trsv
+import SluProofs.Lemmas.SnodeUpdate
 /-
 Exact-arithmetic specification of the mirrored dense kernels of `Slu/Model/MyBlas2.lean`
 (`[sdcz]lsolve`, `usolve`, `matvec`, `snode_bmod`), for every `ncol`, `nrow`, `ldm` and both
@@ -589,4 +590,127 @@ theorem snodeBmod_spec' (cplx : Bool) (jcol fsupc : Nat) (lsub xlsub : Array Nat
     rw [hcell i hin]; simp
 
 end snode
+/-! ### link to the abstract supernodal block update of Lemmas/SnodeUpdate.lean -/
+section sched
+open Slu.LU
+variable {K : Type} [Field K] [Inhabited K]
+
+theorem dotL_eq_sum (us : List K) (Ls : List (Nat × Vec K)) (i : Nat) (h : us.length = Ls.length) :
+    dotL us Ls i = ∑ r ∈ range Ls.length, us.getD r 0 * (Ls.getD r (0, #[])).2.get i := by
+  induction Ls generalizing us with
+  | nil => cases us with
+    | nil => simp
+    | cons _ _ => simp at h
+  | cons pl Ls ih =>
+    cases us with
+    | nil => simp at h
+    | cons u us =>
+      rw [dotL_cons, ih us (by simpa using h), List.length_cons, Finset.sum_range_succ']
+      simp [add_comm]
+
+theorem unitLower_of_index (cols : List (Nat × Vec K))
+    (h1 : ∀ t (ht : t < cols.length), (cols[t]).2.get (cols[t]).1 = 1)
+    (h0 : ∀ r t (hr : r < t) (ht : t < cols.length), (cols[t]).2.get (cols[r]).1 = 0) : UnitLower cols := by
+  induction cols with
+  | nil => trivial
+  | cons pl rest ih =>
+    obtain ⟨p, l⟩ := pl
+    refine ⟨h1 0 (by simp), fun x hx => ?_, ih (fun t ht => h1 (t + 1) (by simpa using ht))
+      (fun r t hr ht => h0 (r + 1) (t + 1) (by omega) (by simpa using ht))⟩
+    obtain ⟨k, hk, rfl⟩ := List.getElem_of_mem hx
+    exact h0 0 (k + 1) (by omega) (by simpa using hk)
+
+/-- the entries of the abstract columns on the rows of the supernode, as sums over the storage -/
+theorem dotL_storage (cols : List (Nat × Vec K)) (us : List K) (hus : us.length = cols.length)
+    (lsub : Array Nat) (istart nsupr luptr : Nat) (lusup : Array K)
+    (R2 : ∀ t (ht : t < cols.length) i, i < nsupr → (cols[t]).2.get (lsub[istart + i]!) =
+        if i < t then 0 else if i = t then 1 else lusup[luptr + (t * nsupr + i)]!)
+    (i : Nat) (hi : i < nsupr) :
+    dotL us cols (lsub[istart + i]!) =
+      ∑ r ∈ range cols.length, us.getD r 0 * (if i < r then 0 else if i = r then 1 else lusup[luptr + (r * nsupr + i)]!) := by
+  rw [dotL_eq_sum us cols _ hus]
+  apply Finset.sum_congr rfl
+  intro r hr
+  have hr' := mem_range.mp hr
+  have : cols.getD r (0, #[]) = cols[r] := by simp [List.getD, hr']
+  rw [this, R2 r hr' i hi]
+
+theorem sum_tri (n t : Nat) (ht : t < n) (u L : Nat → K) :
+    ∑ r ∈ range n, u r * (if t < r then 0 else if t = r then 1 else L r) = ∑ r ∈ range t, u r * L r + u t := by
+  obtain ⟨m, rfl⟩ : ∃ m, n = t + 1 + m := ⟨n - t - 1, by omega⟩
+  rw [Finset.sum_range_add, Finset.sum_range_succ]
+  have h2 : ∑ x ∈ range m, u (t + 1 + x) * (if t < t + 1 + x then 0 else if t = t + 1 + x then 1 else L (t + 1 + x)) = 0 := by
+    apply Finset.sum_eq_zero
+    intro x _
+    rw [if_pos (by omega), mul_zero]
+  have h1 : ∑ r ∈ range t, u r * (if t < r then 0 else if t = r then 1 else L r) = ∑ r ∈ range t, u r * L r := by
+    apply Finset.sum_congr rfl
+    intro r hr
+    have := mem_range.mp hr
+    rw [if_neg (by omega), if_neg (by omega)]
+  rw [h1, h2, if_neg (by omega), if_pos rfl, mul_one, add_zero]
+
+theorem sum_below (n i : Nat) (hi : n ≤ i) (u L : Nat → K) :
+    ∑ r ∈ range n, u r * (if i < r then 0 else if i = r then 1 else L r) = ∑ r ∈ range n, u r * L r := by
+  apply Finset.sum_congr rfl
+  intro r hr
+  have := mem_range.mp hr
+  rw [if_neg (by omega), if_neg (by omega)]
+
+/-- **`snode_bmod` instantiates the abstract "dense solve + gemv" step.**  `cols` are the finished
+columns of the supernode as the factorization model sees them (pivot row, column of L as a vector
+over all rows); they agree with the storage on the rows of the supernode: zero above the pivot, one
+at the pivot, the stored multipliers below.  Then the U-segment written by the mirrored
+`lsolve` is `snodeSolve cols dense` and the cells below hold `snodeGemv cols us dense` at their rows. -/
+theorem snodeBmod_eq_snodeBlock' (cplx : Bool) (jcol fsupc : Nat) (lsub xlsub : Array Nat) (st : SnodeSt K)
+    (istart nsupr ufirst luptr nsupc : Nat)
+    (e1 : istart = xlsub[fsupc]!) (e2 : nsupr = xlsub[fsupc + 1]! - istart)
+    (e3 : ufirst = st.xlusup[jcol]!) (e4 : luptr = st.xlusup[fsupc]!) (e5 : nsupc = jcol - fsupc)
+    (hle : fsupc ≤ jcol)
+    (hinj : ∀ t u, t < nsupr → u < nsupr → lsub[istart + t]! = lsub[istart + u]! → t = u)
+    (hrow : ∀ t, t < nsupr → lsub[istart + t]! < st.dense.size)
+    (hcol : ufirst + nsupr ≤ st.lusup.size) (hwid : nsupc ≤ nsupr)
+    (hbefore : luptr + nsupc * nsupr ≤ ufirst)
+    (htv : nsupr - nsupc ≤ st.tempv.size) (htz : ∀ i, i < nsupr - nsupc → st.tempv[i]! = 0)
+    (cols : List (Nat × Vec K)) (hlen : cols.length = nsupc)
+    (R1 : ∀ t (ht : t < cols.length), (cols[t]).1 = lsub[istart + t]!)
+    (R2 : ∀ t (ht : t < cols.length) i, i < nsupr → (cols[t]).2.get (lsub[istart + i]!) =
+        if i < t then 0 else if i = t then 1 else st.lusup[luptr + (t * nsupr + i)]!) :
+    UnitLower cols ∧ (∀ x ∈ cols, x.1 < st.dense.size) ∧
+    (∀ t, t < nsupc → (snodeBmod cplx jcol fsupc lsub xlsub st).lusup[ufirst + t]! = (snodeSolve cols st.dense).getD t 0) ∧
+    (∀ i, nsupc ≤ i → i < nsupr → (snodeBmod cplx jcol fsupc lsub xlsub st).lusup[ufirst + i]! =
+      (snodeGemv cols (snodeSolve cols st.dense) st.dense).get (lsub[istart + i]!)) := by
+  have hr : ∀ x ∈ cols, x.1 < st.dense.size := by
+    intro x hx
+    obtain ⟨k, hk, rfl⟩ := List.getElem_of_mem hx
+    rw [R1 k hk]; exact hrow k (by omega)
+  have hU : UnitLower cols := by
+    apply unitLower_of_index
+    · intro t ht
+      rw [R1 t ht, R2 t ht t (by omega), if_neg (by omega), if_pos rfl]
+    · intro r t hrt ht
+      rw [R1 r (by omega), R2 t ht r (by omega), if_pos hrt]
+  have hus := snodeSolve_eq_elim cols st.dense hr
+  have hul : (snodeSolve cols st.dense).length = cols.length := by rw [hus, elim_length]
+  have hget : ∀ i, i < nsupr → Vec.get st.dense (lsub[istart + i]!) = st.dense[lsub[istart + i]!]! := by
+    intro i hi
+    rw [getElem!_eq_getD_of_lt _ _ (hrow i hi)]; rfl
+  have hz : ∀ t, t < nsupc → (snodeSolve cols st.dense).getD t 0 = st.dense[lsub[istart + t]!]! -
+      ∑ j ∈ range t, (snodeSolve cols st.dense).getD j 0 * st.lusup[luptr + (j * nsupr + t)]! := by
+    intro t ht
+    have hsp := elim_spec cols st.dense (lsub[istart + t]!) (hrow t (by omega))
+    have hzero := (elim_zero_at_pivots cols st.dense hU hr [] (by simp) (by simp)).1 (cols[t]'(by omega)) (List.getElem_mem _)
+    rw [R1 t (by omega)] at hzero
+    rw [hzero, add_zero, ← hus, dotL_storage cols _ hul lsub istart nsupr luptr st.lusup R2 t (by omega), hlen,
+      sum_tri nsupc t ht, hget t (by omega)] at hsp
+    rw [hsp]; ring
+  obtain ⟨_, c2, c3, _⟩ := snodeBmod_spec' cplx jcol fsupc lsub xlsub st istart nsupr ufirst luptr nsupc e1 e2 e3 e4 e5 hle hinj hrow
+    hcol hwid hbefore htv htz (fun t => (snodeSolve cols st.dense).getD t 0) hz
+  refine ⟨hU, hr, c2, fun i hi hin => ?_⟩
+  rw [c3 i hi hin, snodeGemv_get _ _ _ _ (hrow i hin), hget i hin,
+    dotL_storage cols _ hul lsub istart nsupr luptr st.lusup R2 i hin, hlen, sum_below nsupc i hi]
+  congr 1
+  exact Finset.sum_congr rfl (fun r _ => mul_comm _ _)
+
+end sched
 end Slu.MyBlas2
